@@ -400,6 +400,10 @@ fn cmd_front(args: &[&str], out: &mut Vec<String>) {
                 let mut text: Vec<u8> = Vec::new();
                 e.format_for_contents(&mut text, &contents).unwrap();
                 out.push(format!("render {}", hex_encode(&text)));
+                // what the renderer read: the text, where the user's file begins, its name, every error with all its fields
+                for item in hk::error_sexprs(&e) {
+                    out.push(format!("errsexp {}", item));
+                }
             }
         }
     }
